@@ -57,6 +57,17 @@ fn pool(seed: u64, n: usize) -> Vec<Cfg> {
             c.ranges.truncate(1);
             c.ranges[0].truncate(2);
         }
+        if i % 10 == 2 || i % 10 == 6 {
+            // flops drawn wholly from one end of the deck (the five lowest ranks, or the five highest): several evaluators of a
+            // run then agree on every flop card outside that end - whatever a shortened key of the flop would keep
+            let busy: Vec<usize> = c.ranges.iter().flat_map(|r| r.iter().flat_map(|e| [e.a, e.b])).collect();
+            let (lo, hi) = if i % 10 == 2 { (32usize, 52usize) } else { (0usize, 20usize) };
+            let free: Vec<usize> = (lo..hi).filter(|k| !busy.contains(k)).collect();
+            if free.len() >= 3 {
+                let pick = rng.distinct(3, free.len());
+                c.flop = [free[pick[0]], free[pick[1]], free[pick[2]]];
+            }
+        }
         v.push(c.clone());
         if i % 4 == 1 && v.len() < n {
             // the same combos seat by seat with other weights, right after the original: only probability() tells them apart
